@@ -302,7 +302,7 @@ def parse_mir(text):
     i = 0; n = len(lines)
     while i < n:
         l = lines[i]
-        m = re.match(r'^(alloc\d+) \(static: (.*)\)$', l)
+        m = re.match(r'^(alloc\d+) \(static: ([^,)]+)(?:, size: \d+, align: \d+)?\)(?: \{)?$', l)
         if m: allocs[m.group(1)] = ('static', m.group(2)); i += 1; continue
         m = re.match(r'^(alloc\d+) \(size: (\d+), align: \d+\) \{', l)
         if m:
@@ -319,7 +319,7 @@ def parse_mir(text):
                 j += 1
             allocs[m.group(1)] = ('bytes', bytes(bs) if ok else None)
             i = j + 1; continue
-        m = re.match(r'^const (.*?): (.*?) = const (.*);$', l)
+        m = re.match(r'^const ((?:<impl at [^>]*>|::|[^:])+): (.*?) = const (.*);$', l)
         if m:
             b = Body('const', m.group(1), l); b.ret = m.group(2); b.simple = m.group(3)
             bodies.setdefault(b.name, []).append(b); i += 1; continue
